@@ -57,7 +57,7 @@ class Gen:
         self.rnd, self.pool = rnd, pool
         self.kinds = kinds or ["none", "bool", "int", "float", "str", "any", "list", "set", "frozenset", "vtuple",
                                "tuple", "mapping", "optional", "union", "literal", "enum", "newtype",
-                               "cint", "cfloat", "cstr", "clist", "cdict", "merged", "dataclass", "dataclass", "namedtuple", "typeddict"]
+                               "cint", "cfloat", "cstr", "clist", "cdict", "merged", "dataclass", "dataclass", "namedtuple", "typeddict", "recursive"]
     LEAVES = ["none", "bool", "int", "float", "str", "any", "literal", "enum", "cint", "cfloat", "cstr", "merged"]
     def ty(self, depth):
         r = self.rnd
@@ -106,11 +106,23 @@ class Gen:
         (n1, v1, p1) = self.rnd.choice(table)
         others = [c for c in table if c[0] != n1]
         (n2, v2, p2) = self.rnd.choice(others)
+        third = [c for c in others if c[0] != n2]
         nt = self.pool.fresh("NTC_")
         decl = [f"{nt} = NewType('{nt}', Annotated[{bpy}, schema({n1}={v1})])"]
         self.pool.add(decl)
         inner = Node("c" + base, ["ann", {n1: p1}, blean], f"Annotated[{bpy}, schema({n1}={v1})]", cons=(n1, v1))
         ntn = Node("newtype", ["newtype", nt, inner.lean], nt, [inner], decl=decl)
+        if third and self.rnd.random() < 0.3:
+            # three schema() annotations on one Annotated (what nested Annotated aliases flatten into)
+            (n3, v3, p3) = self.rnd.choice(third)
+            lean = ["ann", {n3: p3}, ["ann", {n2: p2}, ["ann", {n1: p1}, blean]]]
+            inner2 = Node("c" + base, lean[2], "", [inner], cons=(n2, v2), merged=True)
+            return Node("c" + base, lean, f"Annotated[{bpy}, schema({n1}={v1}), schema({n2}={v2}), schema({n3}={v3})]", [inner2], cons=(n3, v3), merged=True)
+        if third and self.rnd.random() < 0.4:
+            # three stacked schema() annotations through a NewType
+            (n3, v3, p3) = self.rnd.choice(third)
+            mid = Node("c" + base, ["ann", {n2: p2}, ntn.lean], f"Annotated[{nt}, schema({n2}={v2})]", [ntn], cons=(n2, v2), merged=True)
+            return Node("c" + base, ["ann", {n3: p3}, mid.lean], f"Annotated[{nt}, schema({n2}={v2}), schema({n3}={v3})]", [mid], cons=(n3, v3), merged=True)
         return Node("c" + base, ["ann", {n2: p2}, ntn.lean], f"Annotated[{nt}, schema({n2}={v2})]", [ntn], cons=(n2, v2), merged=True)
     def g_clist(self, d):
         t = self.ty(d - 1)
@@ -213,6 +225,42 @@ class Gen:
         if not fs: lines.append("    pass")
         self.pool.add(lines)
         return self._obj_node("dataclass", n, fs, decl=lines)
+    def g_recursive(self, d):
+        """self-recursive dataclass (through Optional and, sometimes, a list); presented to the model as its unfolding to
+        depth 4 (generated data are at most 3 deep); the self-reference field may carry object constraints"""
+        n = self.pool.fresh("R")
+        cons = self.rnd.choice([None, None, ("max_props", 1), ("min_props", 1), ("max_props", 2)])
+        with_list = self.rnd.random() < 0.4
+        md = f", metadata=schema({cons[0]}={cons[1]})" if cons else ""
+        lines = ["@dataclass", f"class {n}:", "    value: int", f"    child: Optional['{n}'] = field(default=None{md})"]
+        if with_list: lines.append(f"    kids: List['{n}'] = field(default_factory=list)")
+        self.pool.add(lines)
+        EXTRA = 4       # the model's unfolding is deeper than any generated or mutated datum can reach
+        def lean_level(k):
+            fs = [["value", "value", True, False, ["int"], None]]
+            child = ["none"] if k == 0 else ["union", [lean_level(k - 1), ["none"]]]
+            if cons and k > 0: child = ["ann", {cons[0]: cons[1]}, child]
+            fs.append(["child", "child", False, False, child, ["n"]])
+            if with_list: fs.append(["kids", "kids", False, False, ["list", lean_level(k - 1) if k > 0 else ["none"]], "list"])
+            return ["obj", {"name": n, "kind": "dataclass", "raw": True}, fs]
+        def level(k, top=False):
+            fs = [dict(name="value", alias="value", required=True, fbod=False, ty=self.g_int(0), dflt=None, dflt_src=None)]
+            if k == 0:
+                child = Node("none", ["none"], "NoneType")
+            else:
+                inner = level(k - 1)
+                child = Node("optional", ["union", [inner.lean, ["none"]]], f"Optional[{n}]", [inner])
+                if cons: child = Node("optional", ["ann", {cons[0]: cons[1]}, child.lean], child.py, child.kids, cons=cons)
+            fs.append(dict(name="child", alias="child", required=False, fbod=False, ty=child, dflt=["n"], dflt_src="None"))
+            if with_list:
+                elt = level(k - 1) if k > 0 else Node("cut", ["none"], "NoneType")
+                fs.append(dict(name="kids", alias="kids", required=False, fbod=False, ty=Node("list", ["list", elt.lean], f"List[{n}]", [elt]),
+                               dflt="list", dflt_src="field(default_factory=list)"))
+            node = self._obj_node("dataclass", n, fs, decl=lines if top else None)
+            node.lean = lean_level(k + EXTRA)
+            node.tags = ("recursive",)
+            return node
+        return level(2, top=True)
     def g_depreq(self, d):
         """dataclass with `dependent_required`: not in the Lean model (tag `depreq`: K and model-based P are skipped,
         the model-free checks - jsonschema oracle, typed locations, relational checks - still run)"""
@@ -266,6 +314,7 @@ class Gen:
         if k in ("literal", "enum"): return r.choice(t.vals)
         if k in ("list", "set", "frozenset", "vtuple"):
             # now and then a long array: child errors are keyed by index, and 10 sorts before 2 as a string
+            if t.kids[0].kind == "cut": return []          # end of the generation depth of a recursive class
             n = r.randint(11, 13) if (depth == 0 and r.random() < 0.08) else r.randint(0, 3)
             return [self.valid(t.kids[0], depth + 1) for _ in range(n)]
         if k == "clist": return [self.valid(t.kids[0], depth + 1) for _ in range(r.randint(0, 3))]
